@@ -27,11 +27,17 @@ use vcore::workers::CaseEngine;
 /// which property a monitor class speaks for
 pub fn prop_of(class: &str) -> &'static str {
     let c = class;
-    if c.starts_with("failed_query_changed_state_generic") || c.starts_with("rollback") {
-        "C13"
-    } else if c.starts_with("failed_query_changed_state_edge_to_missing_node") {
-        "C08"
-    } else if c.contains("alias") {
+    if c.starts_with("failed_query_changed_state_edge_to_missing_node") {
+        return "C08";
+    }
+    // "no effect after a failure / rollback" classes are attributed by *what* changed
+    // (C13 has its own engine and owns all of them there)
+    let c = if c.starts_with("failed_query_changed_state_generic:") || c.starts_with("rollback:") {
+        c.split_once(':').map(|x| x.1).unwrap_or(c)
+    } else {
+        c
+    };
+    if c.contains("alias") {
         "C10"
     } else if c.contains("index") {
         "C11"
@@ -227,6 +233,36 @@ fn run_history<S: StorageData>(
     let mut g = Gen::new(seed, weights_for(prop));
     let pr = probe();
     for step in 0..len {
+        if g.rng.chance(1, 9) {
+            // a mutable transaction that is rolled back: the state (indexes included) must not change
+            let k = 1 + g.rng.usize(5);
+            let mut scratch = model.clone();
+            let mut tx_trace = vec![];
+            let r: Result<(), DbError> = db.transaction_mut(|t| {
+                for _ in 0..k {
+                    let q = g.next(&scratch);
+                    tx_trace.push(format!("tx(rolled back) {q:?}"));
+                    match q.to_agdb().exec_tx(t) {
+                        Ok(r) => {
+                            let _ = scratch.apply(&q, Some(&r));
+                        }
+                        Err(e) => return Err(e),
+                    }
+                }
+                Err(DbError::db(agdb::DbErrorType::NotAllowed, "verif: roll back"))
+            });
+            trace.extend(tx_trace);
+            rep.eval();
+            rep.count("rolled_back_transactions");
+            if r.is_ok() {
+                return Some(viol("rollback:returned_ok", "rolled back transaction returned Ok".into()));
+            }
+            if let Some(v) = check_state(db, &mut model, &pr, Some("generic")) {
+                let what = v.class.rsplit(':').next().unwrap_or("").to_string();
+                return Some(viol(&format!("rollback:{what}"), v.detail));
+            }
+            continue;
+        }
         let q = g.next(&model);
         trace.push(format!("{q:?}"));
         rep.count(&format!("q_{}", q.kind()));
@@ -295,6 +331,9 @@ impl CaseEngine for Hist {
     fn cases(&self, args: &Args) -> usize {
         args.u64("n", if args.thorough() { 6000 } else { 320 }) as usize
     }
+    fn case_timeout_s(&self, _args: &Args) -> u64 {
+        180
+    }
     fn run_case(&self, args: &Args, case: usize, rep: &mut Report, _p: &dyn Fn(&str)) {
         let seed = derive(args.u64("seed", 1), &[tag(self.prop), tag("hist"), case as u64]);
         let len = args.u64("len", if args.thorough() { 160 } else { 70 }) as usize;
@@ -348,6 +387,7 @@ impl CaseEngine for Hist {
         rep.require("full_state_comparisons", 100);
         rep.require("queries_ok", 100);
         rep.require("queries_rejected", 10);
+        rep.require("rolled_back_transactions", 10);
         let _ = std::fs::remove_dir_all(args.str("scratch", &format!("/verif/scratch/hist_{}", self.prop)));
     }
 }
@@ -452,6 +492,9 @@ impl CaseEngine for C13 {
     }
     fn cases(&self, args: &Args) -> usize {
         args.u64("n", if args.thorough() { 6000 } else { 400 }) as usize
+    }
+    fn case_timeout_s(&self, _args: &Args) -> u64 {
+        180
     }
     fn run_case(&self, args: &Args, case: usize, rep: &mut Report, _p: &dyn Fn(&str)) {
         let seed = derive(args.u64("seed", 1), &[tag("C13"), case as u64]);
